@@ -16,7 +16,8 @@ TIERS = {"quick": {"runs": 20000, "budget_s": 75, "chunk": 50, "min_runs": 300},
 RULE = ("case = seeded (field sequence from the full generator incl. bit-field runs, dynamic fields, nested/anonymous types, unions, "
         "pointers, optionally a pointer to the structure itself; align; compiled requested or not; a split of the fields into "
         "add_field steps - single adds that commit immediately or batches inside start_update() - with extra no-op commits and "
-        "USES of the intermediate class between steps: parse, default-construct, dumps, len, ==). Three routes are compared: "
+        "USES of the intermediate class between steps: parse, default-construct, dumps, len, ==, array-of, sizeof by name; update "
+        "blocks may be left by an exception of the caller). Three routes are compared: "
         "(A) top-level 'struct R {..};' (pre-registered empty, extended, committed by the parser), (B) one-piece "
         "'typedef struct {..} R;', (C) add_field/commit history; for ~30% of the fixed-size cases additionally (D) one-shot "
         "_make_struct([Field(.., offset=)]) against (E) an add_field(.., offset=) history with EXPLICIT offsets (forward gaps, "
@@ -54,7 +55,7 @@ def gen_case(rng: random.Random, tier: str):
         else:
             k = rng.randint(1, min(4, n - i))
             mode = "batch" if rng.random() < 0.8 else "batch_exc"  # batch_exc: the caller's code raises inside the update block
-        uses = [rng.choice(["parse", "default", "dumps", "len", "eq", "parse_fail", "array_of"]) for _ in range(rng.randint(0, 3))]
+        uses = [rng.choice(["parse", "default", "dumps", "len", "eq", "parse_fail", "array_of", "sizeof", "sizeof"]) for _ in range(rng.randint(0, 3))]
         steps.append({"n": k, "mode": mode, "uses": uses, "extra_commit": rng.random() < 0.2})
         i += k
     # explicit field offsets (Python API only: Field(..., offset=) / add_field(..., offset=)): per field None (computed),
@@ -127,6 +128,20 @@ def _behaviour(T, inputs):
         out.append(["len", len(T)])
     except TypeError:
         out.append(["len", "dynamic"])
+    # users of the finished class BY NAME: sizeof in an expression and in a definition loaded afterwards
+    try:
+        from dissect.cstruct.expression import Expression
+
+        out.append(["sizeof_by_name", Expression(T.cs, f"sizeof({T.__name__})").evaluate()])
+    except Exception as e:  # noqa: BLE001
+        out.append(["sizeof_by_name", type(e).__name__])
+    try:
+        if T.cs.resolve(T.__name__) is T:
+            un = f"User{len(T.cs.typedefs)}"
+            T.cs.load(f"struct {un} {{ uint8 pre; char body[sizeof({T.__name__})]; uint8 post; }};")
+            out.append(["later_user_size", T.cs.resolve(un).size])
+    except Exception as e:  # noqa: BLE001
+        out.append(["later_user_size", type(e).__name__])
     # array types of the finished class
     try:
         A2 = T[2]
@@ -413,6 +428,11 @@ def _use(T, kind, data):
             T() == T()  # noqa: B015
         elif kind == "array_of":
             len(T[2])  # an array type of the (possibly still incomplete) class
+        elif kind == "sizeof":
+            # the size of the (possibly still incomplete) class asked for BY NAME, as a later definition would
+            from dissect.cstruct.expression import Expression
+
+            Expression(T.cs, f"sizeof({T.__name__})").evaluate()
     except Exception:  # noqa: BLE001 - an intermediate class may legitimately be unusable
         pass
 
